@@ -63,7 +63,28 @@ def judge_listing(ctx, ws, text, origin, elf_bytes=None, force_reuse=False, leve
         return _judge_listing(ctx, ws, text, origin + ("" if level == "warning" else f" [logger at {level}]"), elf_bytes, force_reuse)
 
 
+def perturb_lines(rng, text):
+    """What other objdump versions / options print on the same instruction rows: blanks after the last token (old binutils pad operand-less
+    mnemonics), symbol annotations of any length (mangled C++ names are printed in full), long trailing comments."""
+    import re
+    out = []
+    for line in text.split("\n"):
+        if refline.classify(line).kind == "inst" and rng.random() < 0.15:
+            r = rng.random()
+            if r < 0.4:
+                line = line + " " * rng.randint(1, 9)
+            elif r < 0.7 and re.search(r" <[^<>]*>$", line):
+                line = re.sub(r" <[^<>]*>$", " <_ZN" + "x" * rng.choice([200, 990, 1010, 1300, 6000]) + "E+0x10>", line)
+            elif "#" not in line and "<" not in line and len(line.split("\t")) >= 3 and " " in line.split("\t")[2].strip():
+                line = line + "        # " + "c" * rng.choice([100, 1100, 3000])
+        out.append(line)
+    return "\n".join(out)
+
+
 def _judge_listing(ctx, ws, text, origin, elf_bytes=None, force_reuse=False):
+    if ctx.rng.random() < 0.3 and len(text) < 300000 and not origin.startswith("replay"):
+        text = perturb_lines(ctx.rng, text)
+        ctx.event("listings_with_padded_or_very_long_rows")
     if ctx.rng.random() < 0.25:
         failing_run(ctx, ws)
     eol = ctx.rng.choice(["\n"] * 12 + ["\r\n", "\r\n", "\r"])
